@@ -22,7 +22,7 @@ ASSUMPTIONS = ['secondary/supplementary alignments are outside the claim (not ge
                'mate number is only compared for pairs whose mates are both mapped to the same contig (the third-party mate iterator de-pairs the others)',
                'worker schedules are sampled: observed completion orders are counted, not enumerated']
 MIN_NONTRIVIAL = {'quick': 40, 'thorough': 1200}
-REQUIRED_MONITORS = ['lib:secondary_or_supplementary', 'run:single_process', 'run:multiprocess', 'records:compared', 'jobs:observed', 'run:no_rejects', 'layout:large_after_small',
+REQUIRED_MONITORS = ['history:same_path_reused', 'lib:secondary_or_supplementary', 'run:single_process', 'run:multiprocess', 'records:compared', 'jobs:observed', 'run:no_rejects', 'layout:large_after_small',
                      'layout:lone_small_contig', 'lib:unmapped_pairs', 'lib:half_mapped', 'lib:orphans']
 SHARD_TIMEOUT = {'quick': 900, 'thorough': 7200}
 
@@ -198,6 +198,18 @@ def run_case(case):
     for k in ('layout:large_after_small', 'layout:lone_small_contig', 'run:no_rejects', 'run:single_process', 'run:multiprocess', 'jobs:observed'):
         acc.count(k, 0)
     with Scratch('c05') as dd:
+        if multi and r.random() < 0.3:
+            # history: an earlier run of the tagger in this process on ANOTHER library that lived at the very same path
+            gen0, recs0, truths0, _, _ = build_library(r, case['i'] + 5000, method)
+            if recs0:
+                write_bam(os.path.join(dd, 'in.bam'), gen0.refs, recs0)
+                os.makedirs(os.path.join(dd, 'out0'))
+                T.run_cli([os.path.join(dd, 'in.bam'), '-o', os.path.join(dd, 'out0', 'tagged.bam'), '-method', method, '-temp_folder', dd,
+                           '--multiprocess', '-tagthreads', '2'])
+                for fn in ('in.bam', 'in.bam.bai'):
+                    if os.path.exists(os.path.join(dd, fn)):
+                        os.remove(os.path.join(dd, fn))
+                acc.count('history:same_path_reused')
         bam = write_bam(os.path.join(dd, 'in.bam'), gen.refs, recs)
         out = os.path.join(dd, 'out', 'tagged.bam')
         os.makedirs(os.path.dirname(out))
